@@ -21,7 +21,7 @@ let spec_items st base multi_crew =
   let k = st.[0] in
   let n = if String.length st > 1 then int_of_string (String.sub st 1 (String.length st - 1)) else 0 in
   let plain = Stdlib.List.init n (fun i -> base + 3 * i) in
-  let dups = if multi_crew && k <> 'c' && k <> 'g' then Stdlib.List.filter_map (fun i -> if i mod 4 = 0 then Some (base + 3 * i) else None) (Stdlib.List.init n (fun i -> i)) else [] in
+  let dups = if multi_crew && k <> 'c' && k <> 'g' && k <> 'h' then Stdlib.List.filter_map (fun i -> if i mod 4 = 0 then Some (base + 3 * i) else None) (Stdlib.List.init n (fun i -> i)) else [] in
   let all = Stdlib.List.sort compare (plain @ dups) in
   match k with
   | 'e' | 'c' -> ([], n)
@@ -38,7 +38,7 @@ type kindinfo = Crew of ckind * bool * wkind option   (* nested kind, multi, wra
               | Arr of int * bool                     (* internal capacity, is stdish vector *)
 let kind_of = function
   | "Array" -> Arr (0, false) | "ArrayIC" -> Arr (4, false) | "Seg" -> Arr (0, false)
-  | "HashSet" | "HashSetThm" | "HashMap" -> Crew (KHash, false, None)
+  | "HashSet" | "HashMap" -> Crew (KHash, false, None)
   | "HashMulti" -> Crew (KMulti, true, None)
   | "TreeSet" | "TreeMap" -> Crew (KTree, false, None)
   | "vec" -> Arr (0, true)
